@@ -234,17 +234,20 @@ Proof.
   - destruct H as [H|[z' [H _]]]; [|discriminate H]. inversion H; reflexivity.
 Qed.
 
-(* outside the known class (an integer above i64::MAX) ID accepts exactly what denotes an ID *)
-Theorem id_exact v s :
-  known_parse SID v = 0%N -> (parse_id v = Ok s <-> denotes_id v s).
+(* every integer a Number can hold, and every string, is accepted as the ID it denotes *)
+Lemma parse_id_int z : parse_id (GInt z) = Ok (dec_Z z).
 Proof.
-  intros K. rewrite <- spec_id_denotes.
-  destruct v as [|z|b|s0|b|l|s0|l|l]; cbn [spec_id parse_id known_parse] in *; try tauto;
-    try (split; intros H; discriminate H).
-  unfold as_i64. unfold i64_max in *.
-  destruct (Z.ltb_spec 9223372036854775807 z); [discriminate K|].
-  destruct (Z.ltb_spec z 0); [tauto|].
-  destruct (Z.leb_spec z 9223372036854775807); [tauto|lia].
+  cbn [parse_id]. unfold as_i64, as_u64.
+  destruct (Z.ltb_spec z 0); [reflexivity|].
+  destruct (Z.leb_spec z i64_max); reflexivity.
+Qed.
+
+Theorem id_exact v s : parse_id v = Ok s <-> denotes_id v s.
+Proof.
+  rewrite <- spec_id_denotes.
+  destruct v as [|z|b|s0|b|l|s0|l|l]; try (cbn [spec_id parse_id]; tauto);
+    try (cbn [spec_id parse_id]; split; intros H; discriminate H).
+  rewrite parse_id_int. cbn [spec_id]. tauto.
 Qed.
 
 Theorem id_rejects v :
@@ -258,13 +261,16 @@ Qed.
 Theorem id_roundtrip s : parse_id (to_value_id s) = Ok s.
 Proof. reflexivity. Qed.
 
-(* known finding: an integer that denotes an ID is rejected *)
-Theorem id_above_i64_refuted :
-  exists v s, wf_gv v = true /\ denotes_id v s /\ parse_id v = Err E_TYPE /\ known_parse SID v = 2%N.
+(* repaired finding (was: integers above i64::MAX rejected): the former witness is accepted *)
+Theorem id_accepts_all_integers :
+  (forall z, parse_id (GInt z) = Ok (dec_Z z)) /\
+  (forall sc v, known_parse sc v <> 2%N) /\
+  parse_id (GInt 9223372036854775808) = Ok (dec_Z 9223372036854775808).
 Proof.
-  exists (GInt 9223372036854775808), (dec_Z 9223372036854775808).
-  split; [reflexivity|]. split; [right; eexists; split; reflexivity|].
-  split; reflexivity.
+  split; [exact parse_id_int|]. split; [|apply parse_id_int].
+  intros sc v. destruct sc; destruct v; cbn [known_parse]; try discriminate;
+    destruct (num_value _) as [[[? ?] ?]|]; try discriminate;
+    destruct (representable _ _ _); discriminate.
 Qed.
 
 (* ------------------------------------------------------------------- enums -- *)
